@@ -7,7 +7,7 @@ git -C /repo apply /verif/seeded/$N/patch.diff || { echo "patch does not apply";
 PROPS=$(python3 -c "import json;print(' '.join(c['property_id'] for c in json.load(open('MANIFEST.json'))['checks']))")
 OUT=""
 for p in $PROPS; do
-  R=$(./check $p quick 2>&1 | grep -E "^(VIOLATION|UNDECIDED|KNOWN)" | head -3 | cut -c1-220)
+  R=$(./check $p quick 2>&1 | grep -E "^(VIOLATION|UNDECIDED)" | head -3 | cut -c1-220)
   rc=$?
   if [ -n "$R" ]; then echo "[$p] $R"; fi
 done
